@@ -220,22 +220,23 @@ def inferPool (pre post2 : Node) : Node × Option PyErr :=
   | .ok t => (post2.setOutputType t, Option.none)
   | .error e => (post2, some e)
 
-/-- input shape and flattened shape of a Flatten node -/
-def flattenShapes (post2 : Node) : Except PyErr (List Int × List Int) := do
+/-- the flattened output shape of a Flatten node, and whether the element count is preserved -/
+def flattenShapes (post2 : Node) : Except PyErr (Val × Bool) := do
   let it ← getItem post2.inputType "input"
   let shp ← shapeInts it
   let s ← match (post2.field? "start_dim").bind Val.asInt? with | some s => pure s | Option.none => throw unmodelled
   let e ← match (post2.field? "end_dim").bind Val.asInt? with | some s => pure s | Option.none => throw unmodelled
-  pure (shp, calcFlattenOutput shp s e)
+  let out := calcFlattenOutput shp s e
+  pure (flattenArray it out, Py.prod shp == Py.prod out)
 
 /-- Step 3 for a Flatten node. -/
 def inferFlatten (post2 : Node) : Node × Option PyErr :=
   match flattenShapes post2 with
   | .error e => (post2, some e)
-  | .ok (shp, out) =>
+  | .ok (out, countOk) =>
     -- the element-count assertion comes after the assignment
-    if Py.prod shp == Py.prod out then (post2.setOutputType (typeDict "output" (shapeArray out)), Option.none)
-    else (post2.setOutputType (typeDict "output" (shapeArray out)), some .assertionError)
+    if countOk then (post2.setOutputType (typeDict "output" out), Option.none)
+    else (post2.setOutputType (typeDict "output" out), some .assertionError)
 
 /-- `undef_post_input_type or type_mismatch` (both are evaluated before either is used, so an
 error while comparing is raised even when the input type is undefined) -/
